@@ -1,9 +1,9 @@
 package main
 
 // The fact tables. Each entry names a source location and an extractor.
-func allModules() []Module {
-	return []Module{
-		{"Hash", []Fact{
+func init() {
+	registerModule("Hash", func() []Fact {
+		return []Fact{
 			{"domains", "every `Domain() string` method of the repository: dir|receiver|returned literal(s)", domainTable()},
 			{"newPrefix", "what hash.New writes before any item", callsIn("pkg/hash/hash.go", "New", `\.h\.Write`)},
 			{"writeAnyFraming", "the writes WriteAny performs for every item, in order", callsIn("pkg/hash/hash.go", "Hash.WriteAny", `\.h\.Write|PutUint64`)},
@@ -25,8 +25,10 @@ func allModules() []Module {
 			{"pedersenWrite", "pedersen.Parameters.WriteTo", callsIn("pkg/pedersen/pedersen.go", "Parameters.WriteTo", `Write|FillBytes|make`)},
 			{"elgamalWrite", "elgamal.Ciphertext.WriteTo", callsIn("internal/elgamal/elgamal.go", "Ciphertext.WriteTo", `Write|MarshalBinary`)},
 			{"params", "internal/params constants", constsIn("internal/params/params.go")},
-		}},
-		{"Session", []Fact{
+		}
+	})
+	registerModule("Session", func() []Fact {
+		return []Fact{
 			{"newSessionWrites", "round.NewSession: every write into the session hash with its guard", callsIn("internal/round/helper.go", "NewSession", `WriteAny|hash\.New|Sum`)},
 			{"newSessionGuards", "round.NewSession: conditions that refuse the parameters", guardsIn("internal/round/helper.go", "NewSession")},
 			{"hashForID", "Helper.HashForID", callsIn("internal/round/helper.go", "Helper.HashForID", `WriteAny|Clone`)},
@@ -38,8 +40,8 @@ func allModules() []Module {
 			{"multiHandlerStop", "MultiHandler.Stop: guards and calls", append(guardsIn("pkg/protocol/handler.go", "MultiHandler.Stop"), callsIn("pkg/protocol/handler.go", "MultiHandler.Stop", `abort`)...)},
 			{"twoPartyHandlerStop", "TwoPartyHandler.Stop: guards and calls", append(guardsIn("pkg/protocol/twoparty.go", "TwoPartyHandler.Stop"), callsIn("pkg/protocol/twoparty.go", "TwoPartyHandler.Stop", `abort`)...)},
 			{"isFor", "Message.IsFor", append(guardsIn("pkg/protocol/message.go", "Message.IsFor"), returnsIn("pkg/protocol/message.go", "Message.IsFor")...)},
-		}},
-	}
+		}
+	})
 }
 
 func callsArgsOrMissing(rel, fn, re string) []string { return callArgs(rel, fn, re) }
